@@ -40,7 +40,7 @@ theorem decodeElems_step (elem : Ref) (j : Nat)
   rcases hk with hk | hk | hk <;> simp only [hk, hdec, hlt, ↓reduceIte, hrec]
 
 /-- the shared argument for the three constructed element kinds -/
-theorem elems_ty_step (τ : Nat) (elem : Ref) (j : Nat)
+theorem elems_ty_step (_τ : Nat) (elem : Ref) (j : Nat)
     (hk : kindOf env elem = .seqOf j ∨ kindOf env elem = .listOf j ∨ kindOf env elem = .struct j)
     (hg : Good I enc dec conf j) (hnn : (look I j).nullable = false)
     (hdisj : disjAll (look I j).confus (look I j).first = true)
